@@ -176,8 +176,39 @@ def outofstep_history(rng):
     return {"ops": ops, "sources": [101, 102]}
 
 
+def mem_history(rng):
+    """One fresh build of a project whose tasks hand values over in files AND in memory (PythonNode
+    products, ids 300-399), with raising tasks: failure containment through in-memory edges."""
+    n = rng.randint(3, 7)
+    tasks, avail = [], []      # avail: nodes produced so far
+    nf, nm = 110, 300
+    for i in range(1, n + 1):
+        deps = [d for d in avail if rng.random() < 0.45][:3]
+        deps = [d for d in deps if d < 300] + [d for d in deps if d >= 300]      # collection order: defaults before annotations
+        if not deps and rng.random() < 0.5:
+            deps = [101]
+        prods = []
+        if rng.random() < 0.6:
+            nm += 1; prods.append(nm)
+        if rng.random() < 0.6 or not prods:
+            nf += 1; prods.append(nf)
+        prods = [p for p in prods if p < 300] + [p for p in prods if p >= 300]
+        tasks.append({"id": i, "module": 1, "deps": deps, "prods": prods, "mver": 0, "skip": False, "skipifs": [], "persist": False,
+                      "prio": rng.choice([0, 0, 1, -1]), "marks": [], "attrs": [], "after_fn": [], "after_expr": None, "use_decorator": False})
+        avail += prods
+    cfg = {"force": False, "dry_run": False, "max_failures": rng.choice([None, None, 1, 2]), "expression": "", "marker_expression": "", "capture": "no"}
+    faults = {str(t["id"]): rng.choice(["raise_before", "raise_after"]) for t in tasks if rng.random() < 0.2}
+    # mostly: a failing producer whose in-memory product somebody consumes
+    consumed = [t for t in tasks if any(p >= 300 and any(p in u["deps"] for u in tasks) for p in t["prods"])]
+    if consumed and rng.random() < 0.8:
+        faults[str(rng.choice(consumed)["id"])] = rng.choice(["raise_before", "raise_after"])
+    return {"ops": [{"op": "set", "n": 101, "c": rng.randint(1, 50)}, {"op": "build", "tasks": tasks, "cfg": cfg, "faults": faults}], "sources": [101]}
+
+
 for k in ("C02", "C03", "C04"):
     OPTS[k]["templates"] = [outofstep_history]
+for k in ("C04", "C01", "C08"):
+    OPTS[k]["templates"] = OPTS[k].get("templates", []) + [mem_history]
 
 
 EXTRA = {"C01": [c01_sorter], "C10": [c10_twin]}
